@@ -835,6 +835,13 @@ class P_bytearray(metaclass=_Meta):
         return SByteArray([_byte_ok(e) for e in x])
 
 
+def p_memoryview(x):
+    """memoryview(proxy) -> the proxy itself (slicing / indexing / iteration behave alike for the uses in scope)"""
+    if isinstance(x, SBytesBase):
+        return x
+    return memoryview(x)
+
+
 def p_min(*args):
     if len(args) == 1:
         args = tuple(args[0])
